@@ -212,6 +212,14 @@ def case_qed(log, order, nf, seed_var):
                     want = want * Cx.lift(nsq.fixed_alphaem_exact(order, g, as_list[s], as_list[s - 1], aems[s - 1], nfs, steps[s - 1], steps[s]))
                 v = prove_zero(got - want, "exact() with %d steps == ordered product of fixed-alpha_em kernels" % nstep)
                 log.decide(v, key="nsqed.exact:%dsteps" % nstep, replay=(MOD, "replay_exact_steps", {"order": list(order), "nf": nf, "nstep": nstep}), sampler=_sampler)
+                # the dispatcher (what quad_ker_qed calls), running and fixed alpha_em, every method name
+                from eko.kernels import EvoMethods
+
+                for running in (True, False):
+                    for mth in (EvoMethods.ITERATE_EXACT, EvoMethods.TRUNCATED):
+                        gd = Cx.lift(nsq.dispatcher(order, mth, g, as_list, aems, running, nfs, nstep, m0, m1.novar()))
+                        v = prove_zero(gd - want, "QED non-singlet dispatcher (%s, alphaem_running=%s) with %d steps == ordered product of the step kernels" % (mth.name, running, nstep))
+                        log.decide(v, key="nsqed.dispatcher:%dsteps" % nstep, replay=(MOD, "replay_exact_steps", {"order": list(order), "nf": nf, "nstep": nstep, "dispatcher": True, "running": running}), sampler=_sampler)
         log.twin("domain")
         log.collect_ctx()
 
@@ -221,6 +229,21 @@ def case_qed(log, order, nf, seed_var):
 
 # ---------------------------------------------------------------------------
 def _sampler(rng):
+    return _near(_sampler0(rng))
+
+
+_NEAR = [0]
+
+
+def _near(p):
+    """every third sample has nearly coincident couplings (a1 = a0 (1 + delta), delta = 1e-3 / 1e-5): special-casing of small steps"""
+    _NEAR[0] += 1
+    if _NEAR[0] % 3 == 0 and "a0" in p and "a1" in p:
+        p["a1"] = p["a0"] * (1 + (Fraction(1, 1000) if _NEAR[0] % 2 else Fraction(1, 100000)))
+    return p
+
+
+def _sampler0(rng):
     p = {"a0": rnd(rng, 0.002, 0.05), "a1": rnd(rng, 0.002, 0.05), "beta0": rnd(rng, 5, 10), "b1": rnd(rng, 0.2, 6), "b2": rnd(rng, -5, 30),
          "r1": -rnd(rng, 0.2, 3), "u": rnd(rng, -2, 2), "v": rnd(rng, 0.3, 3), "r2": -rnd(rng, 3.1, 5), "r3": rnd(rng, 0.5, 4),
          "aem": rnd(rng, 0.0005, 0.01, 10000), "mu2_from": rnd(rng, 2, 50), "mu2_to": rnd(rng, 2, 5000)}
@@ -348,7 +371,7 @@ def replay_qed(point, order, nf, unit=False):
     return None
 
 
-def replay_exact_steps(point, order, nf, nstep):
+def replay_exact_steps(point, order, nf, nstep, dispatcher=False, running=True):
     """real non_singlet_qed.exact over `nstep` geometric mu^2 steps vs the product of per-step references (quadrature of
     gamma/beta_shifted times the pure-QED factor over that step only)"""
     import numpy as np
@@ -367,7 +390,12 @@ def replay_exact_steps(point, order, nf, nstep):
     g[0, 0] = 0
     as_list = np.linspace(a0, a1, nstep + 1)
     aems = np.array([0.0007 + 1e-4 * k for k in range(nstep)])
-    got = complex(nsq.exact(tuple(order), g, as_list, aems, nf, nstep, m0, m1))
+    if dispatcher:
+        from eko.kernels import EvoMethods
+
+        got = complex(nsq.dispatcher(tuple(order), EvoMethods.ITERATE_EXACT, g, as_list, aems, running, nf, nstep, m0, m1))
+    else:
+        got = complex(nsq.exact(tuple(order), g, as_list, aems, nf, nstep, m0, m1))
     steps = np.geomspace(m0, m1, nstep + 1)
     want = mp.mpc(1)
     for s in range(1, nstep + 1):
